@@ -229,6 +229,9 @@ type IngPath struct {
 	Service  string
 	PortName string
 	PortNum  int
+	// Resource makes the backend a `resource` (TypedLocalObjectReference) instead of a
+	// service: valid networking.k8s.io/v1, skipped by the controller.
+	Resource bool
 }
 
 // IngRule is one rule.
@@ -253,6 +256,10 @@ func Ingress(ns, name string, stamp int, rules ...IngRule) *networking.Ingress {
 		http := &networking.HTTPIngressRuleValue{}
 		for _, p := range r.Paths {
 			hp := networking.HTTPIngressPath{Path: p.Path, Backend: Backend(p.Service, p.PortName, p.PortNum)}
+			if p.Resource {
+				grp := "storage.example"
+				hp.Backend = networking.IngressBackend{Resource: &api.TypedLocalObjectReference{APIGroup: &grp, Kind: "Bucket", Name: p.Service}}
+			}
 			if p.Type != "" {
 				t := networking.PathType(p.Type)
 				hp.PathType = &t
@@ -367,6 +374,9 @@ func GenPath(rng *rand.Rand, cfg Config) IngPath {
 		p.PortNum = 8080
 	default:
 		p.PortNum = 80
+	}
+	if cfg.Annotations && rng.Intn(25) == 0 {
+		p.Resource = true
 	}
 	return p
 }
